@@ -40,6 +40,9 @@ def isFuel {α} : PR α → Bool
 def isOk {α} : PR α → Bool
   | .ok _ _ => true
   | _ => false
+def isErr {α} : PR α → Bool
+  | .err => true
+  | _ => false
 /-- continue after a success; every other outcome is passed on unchanged. -/
 def bind {α β} (x : PR α) (f : α → List Char → PR β) : PR β :=
   match x with
